@@ -970,7 +970,8 @@ func c16r13(p *Program, r *Report) {
 		if !hasMut {
 			return
 		}
-		g := p.GraphOf(fi)
+		// the rebuild may sit in a helper shared by the functions that change the list: judged in place
+		g := p.GraphOfInl(fi)
 		ef := g.Events(func(st Step) []string {
 			if st.Kind != StNode {
 				return nil
@@ -982,40 +983,42 @@ func c16r13(p *Program, r *Report) {
 			}
 			return nil
 		})
-		for _, c := range callsIn(fi.Decl.Body) {
-			if !isCallTo(info, c, "(*clusterMeta).resetTokenRing") || len(c.Args) < 2 {
-				continue
-			}
-			nb++
-			arg := ast.Unparen(c.Args[1])
-			okArg := false
-			why := exprStr(arg)
-			if gc, isC := arg.(*ast.CallExpr); isC && isCallTo(info, gc, "(*cowHostList).get") {
-				okArg = true // read at the call, after whatever preceded it
-			} else if id, isId := arg.(*ast.Ident); isId {
-				// a local: its definition reads the list after the change
-				obj := info.Uses[id]
-				ast.Inspect(fi.Decl.Body, func(y ast.Node) bool {
-					as, ok := y.(*ast.AssignStmt)
-					if !ok || len(as.Lhs) != len(as.Rhs) {
-						return true
-					}
-					for i, l := range as.Lhs {
-						if lid, ok := l.(*ast.Ident); ok && (info.Defs[lid] == obj || info.Uses[lid] == obj) {
-							if gc, isC := ast.Unparen(as.Rhs[i]).(*ast.CallExpr); isC && isCallTo(info, gc, "(*cowHostList).get") {
-								if s, okS := ef.Sol.Before(as); okS && s.Must["changed"] {
-									okArg = true
-								} else {
-									why = id.Name + " := " + exprStr(as.Rhs[i]) + " at " + p.Pos(as) + ", before the list is changed"
+		for _, u := range g.Units() {
+			for _, c := range callsIn(u.Decl.Body) {
+				if !isCallTo(info, c, "(*clusterMeta).resetTokenRing") || len(c.Args) < 2 {
+					continue
+				}
+				nb++
+				arg := ast.Unparen(c.Args[1])
+				okArg := false
+				why := exprStr(arg)
+				if gc, isC := arg.(*ast.CallExpr); isC && isCallTo(info, gc, "(*cowHostList).get") {
+					okArg = true // read at the call, after whatever preceded it
+				} else if id, isId := arg.(*ast.Ident); isId {
+					// a local: its definition reads the list after the change
+					obj := info.Uses[id]
+					ast.Inspect(u.Decl.Body, func(y ast.Node) bool {
+						as, ok := y.(*ast.AssignStmt)
+						if !ok || len(as.Lhs) != len(as.Rhs) {
+							return true
+						}
+						for i, l := range as.Lhs {
+							if lid, ok := l.(*ast.Ident); ok && (info.Defs[lid] == obj || info.Uses[lid] == obj) {
+								if gc, isC := ast.Unparen(as.Rhs[i]).(*ast.CallExpr); isC && isCallTo(info, gc, "(*cowHostList).get") {
+									if s, okS := ef.Sol.Before(as); okS && s.Must["changed"] {
+										okArg = true
+									} else {
+										why = id.Name + " := " + exprStr(as.Rhs[i]) + " at " + p.Pos(as) + ", before the list is changed"
+									}
 								}
 							}
 						}
-					}
-					return true
-				})
+						return true
+					})
+				}
+				r.Check(okArg, c, fi.Name+" rebuilds the token ring from the host list as it is after the change", "hosts.get() read after add / remove",
+					"the token ring is rebuilt from "+why+": a copy-on-write snapshot taken before the list was changed still contains the removed node (or lacks the new one), so the node keeps its ranges and replica-set membership until the next change")
 			}
-			r.Check(okArg, c, fi.Name+" rebuilds the token ring from the host list as it is after the change", "hosts.get() read after add / remove",
-				"the token ring is rebuilt from "+why+": a copy-on-write snapshot taken before the list was changed still contains the removed node (or lacks the new one), so the node keeps its ranges and replica-set membership until the next change")
 		}
 	})
 	if nb == 0 {
